@@ -276,14 +276,19 @@ def check(run, ctx):
                      and any(isinstance(x, ast.Name) and x.id in ("language", "lang") for x in ast.walk(n.value)) and any(isinstance(x, ast.Name) and x.id == cpar_ for x in ast.walk(n.value))}
         if not lang_maps:
             continue
-        sect_defs = {t.id: n.value for n in flat_ if isinstance(n, ast.Assign) for t in n.targets if isinstance(t, ast.Name)}
+        sect_defs: dict[str, list] = {}
+        for n in flat_:
+            if isinstance(n, ast.Assign):
+                for t in n.targets:
+                    if isinstance(t, ast.Name):
+                        sect_defs.setdefault(t.id, []).append(n.value)
         def reads_section(e, key, depth=2):
             for x in ast.walk(e):
                 if isinstance(x, ast.Call) and call_name(x) == "get" and isinstance(x.func.value, ast.Name) and x.func.value.id == cpar_ and x.args and repo.fold(fd_.module, x.args[0], c) == key:
                     return True
                 if isinstance(x, ast.Subscript) and isinstance(x.value, ast.Name) and x.value.id == cpar_ and repo.fold(fd_.module, x.slice, c) == key:
                     return True
-                if depth > 0 and isinstance(x, ast.Name) and x.id in sect_defs and x.id not in lang_maps and reads_section(sect_defs[x.id], key, depth - 1):
+                if depth > 0 and isinstance(x, ast.Name) and x.id in sect_defs and x.id not in lang_maps and any(reads_section(d_, key, depth - 1) for d_ in sect_defs[x.id] if d_ is not e):
                     return True
             return False
         for n in flat_:
